@@ -291,7 +291,7 @@ def cmd_determinism(n):
     tmp = os.path.join(SCRATCH, "det")
     shutil.rmtree(tmp, ignore_errors=True)
     os.makedirs(tmp)
-    plan = [("C02", "pegsim"), ("C03", "pegsim"), ("C05", "pegsim"), ("C07", "pegsim"), ("C07", "pegsim-io"), ("C08", "pegsim"), ("C08", "pegsim-cov"), ("C12", "pegsim-tree"), ("C13", "pegsim"), ("C18", "pegsim")]
+    plan = [("C02", "pegsim"), ("C03", "pegsim"), ("C05", "pegsim"), ("C07", "pegsim"), ("C07", "pegsim-io"), ("C05", "pegsim-io"), ("C08", "pegsim"), ("C08", "pegsim-cov"), ("C08", "pegsim-io"), ("C12", "pegsim-tree"), ("C13", "pegsim"), ("C13", "pegsim-io"), ("C18", "pegsim")]
     for check, binary in plan:
         maps = []
         for workers in (1, 5, 16):
